@@ -114,6 +114,16 @@ def run_check(ctx):
                        "index; every function x index x position on the database scenarios. Each call is executed against "
                        "the library. distinct = distinct (registered tables / loaded files, function, arguments); non-trivial "
                        "= the argument lies outside the valid domain, or the spec demands a non-neutral answer")
+    ctx.assumptions += [
+        "the neutral answer of interrogate_type_array_size is 1 (what a default-constructed record, like every non-array "
+        "type, answers); every other function answers 0 / false / \"\" outside its domain",
+        "a NULL const char* answer (library / module name of a record without module def) counts as the empty string",
+        "by-name functions are called with valid C strings only (no NULL pointer)",
+        "a lookup by a name that several records bear may answer any of them (the spec's mechanism answers the highest index)",
+        "index ranges of registered module defs ascend in request order (what request_module produces)",
+        "trusted: TLC, the regular-expression parse of interrogate_interface.h in harness/idb_driver.py (cross-checked against "
+        "IdbQuery.QF: a function missing on either side stops the check), ctypes",
+    ]
     base_bytes = None
     for d in dbs:
         if d["name"] == "rich":
